@@ -164,8 +164,18 @@ ENUM_STD = {
 ENUM_DISCR = {"Ordering": {"Less": -1, "Equal": 0, "Greater": 1}}
 
 
+_LAST_SEG = {}
+
+
 def last_seg(path):
     """Type name without module path and generics: std::option::Option<u64> -> Option"""
+    r = _LAST_SEG.get(path)
+    if r is None:
+        r = _LAST_SEG[path] = _last_seg(path)
+    return r
+
+
+def _last_seg(path):
     p = path.strip()
     p = re.sub(r"^&\s*('\w+\s+)?(mut )?", "", p).strip()
     k = find_top(p, "<")
@@ -267,6 +277,8 @@ class Program:
                     s = open(os.path.join(root, f), errors="replace").read()
                 except Exception:
                     continue
+                for m in re.finditer(r"^\s*impl_hash_type!\((\w+),\s*(\d+)\);", s, re.M):
+                    self.__dict__.setdefault("byte_counts", {})[m.group(1)] = int(m.group(2))
                 for m in re.finditer(r"\bstruct\s+(\w+)\s*(?:<[^>{]*>)?\s*(?:where[^{]*)?\{", s):
                     k = match_close(s, m.end() - 1)
                     body = re.sub(r"//[^\n]*", "", s[m.end():k])
@@ -365,7 +377,15 @@ class Program:
         return res
 
     def resolve(self, callee):
-        """call-site path -> def name or None"""
+        """call-site path -> def name or None (memoised: a pure function of the call-site text)"""
+        cache = self.__dict__.setdefault("_resolve_cache", {})
+        if callee in cache:
+            return cache[callee]
+        r = self._resolve(callee)
+        cache[callee] = r
+        return r
+
+    def _resolve(self, callee):
         c = callee.strip()
         if c in self.fns:
             return c
@@ -460,6 +480,23 @@ class Program:
         parts = [x for x in parts if not re.match(r"^<[^i]", x)]
         return re.sub(r"#\d+$", "", parts[-1]) if parts else owner
 
+    def _norm_owner(self, owner):
+        out = []
+        for x in split_top(owner, "::"):
+            if not x:
+                continue
+            if x.startswith("<impl at"):
+                out.append("<%s>" % self.impl_of(x + "::x")[0])
+            elif x.startswith("<impl "):
+                h = x[6:-1]
+                k = find_top(h, " for ")
+                out.append("<%s>" % last_seg(h[k + 5:] if k >= 0 else h))
+            elif x.startswith("<"):
+                continue
+            else:
+                out.append(x)
+        return "::".join(out)
+
     def resolve_promoted(self, raw):
         m = re.match(r"^(.*)::promoted\[(\d+)\]$", raw)
         if not m:
@@ -468,17 +505,22 @@ class Program:
         cands = self.promoted.get((self._owner_method(owner), int(m.group(2))), [])
         if len(cands) == 1:
             return cands[0][1]
+        # several owners share the last segment (closures, trait methods): compare the whole normalised owner path
+        want_n = self._norm_owner(owner)
+        exact = [fn for o, fn in cands if self._norm_owner(o) == want_n]
+        if len(exact) == 1:
+            return exact[0]
         mi = re.search(r"<impl (?:.* for )?([^<>]+?)>", owner)
         if mi:
             want = last_seg(mi.group(1))
             hit = [fn for o, fn in cands if self.impl_of(o + "::x")[0] == want]
-            if len(hit) >= 1:
+            if len(hit) == 1:
                 return hit[0]
         ty = last_seg("::".join(x for x in split_top(owner, "::")[:-1] if not x.startswith("<"))) if "::" in owner else None
-        for o, fn in cands:
-            if self.impl_of(o + "::x")[0] == ty:
-                return fn
-        return cands[0][1] if cands else None
+        hit = [fn for o, fn in cands if self.impl_of(o + "::x")[0] == ty]
+        if len(hit) == 1:
+            return hit[0]
+        return None         # ambiguous: the caller reports the constant as unsupported rather than guessing
 
 
 def split_path(p):
@@ -592,7 +634,7 @@ class Engine:
             return True      # keep the path: sound for "no violation on any path"
         return r == z3.sat
 
-    def choose(self, conds, what=""):
+    def choose(self, conds, what="", trust=False):
         """conds: list of z3 Bool terms (mutually exclusive alternatives). Returns the index taken on this path;
         adds the chosen condition to the path condition."""
         simp = [z3.simplify(c) if not isinstance(c, bool) else z3.BoolVal(c) for c in conds]
@@ -607,7 +649,7 @@ class Engine:
             idx = feas[k]
             self.pc.append(simp[idx])
             return idx
-        feas = [i for i in live if self.feasible(simp[i])]
+        feas = list(live) if trust else [i for i in live if self.feasible(simp[i])]
         if not feas:
             raise PathAbort("infeasible", what)
         if not hasattr(self, "_feas_cache"):
@@ -942,10 +984,34 @@ class Engine:
                 else:
                     cal = callee
                 avals = [self.eval_operand(fr, a) for a in aops]
+                if ret is None and not isinstance(cal, V) and re.match(r"^(core|std)::(panicking|rt|option|result)::", cal):
+                    raise PathAbort("panic", "diverging call " + callee + " in " + fn.name)
                 if isinstance(cal, V):
                     r = self.call_value(cal, avals)
+                elif ret is None:
+                    try:
+                        r = self.call(cal, avals)
+                    except Unsupported as e:
+                        if "no model for callee" not in str(e):
+                            raise
+                        raise PathAbort("panic", "diverging call " + callee + " in " + fn.name)
                 else:
-                    r = self.call(cal, avals)
+                    try:
+                        r = self.call(cal, avals)
+                    except Unsupported as e:
+                        # opt-in: a function outside the crate without a model is an uninterpreted total function of its
+                        # arguments, typed by the destination local (Result / Option fork both ways)
+                        hv = getattr(self, "havoc_external", None)
+                        if not hv or "no model for callee: " + cal.strip() not in str(e) or self.P.resolve(cal) is not None or dest is None or dest[0] != "local":
+                            raise
+                        if hv is not True and not re.search(hv, cal):
+                            raise
+                        dty = fn.locals.get(dest[1]) or (fn.ret if dest[1] == 0 else None)
+                        if dty is None:
+                            raise
+                        self.trace.append(("havoc", cal))
+                        # deterministic: the same external function on the same arguments yields the same result (and the same Ok / Err verdict)
+                        r = self.typed_result(dty, re.sub(r"[^A-Za-z0-9_:]", "_", cal)[-50:], [self.as_u(a) for a in avals if not isinstance(a, VFn)])
                 if ret is None:
                     raise PathAbort("panic", "diverging call " + callee)
                 if dest is not None:
@@ -1008,6 +1074,19 @@ class Engine:
                 cases = [((c - (1 << bits)) if c >= (1 << (bits - 1)) else c, b) for c, b in cases]
         else:
             raise Unsupported("switch on %r" % (v,))
+        # concrete discriminant: no solver, no decision recorded (choose() records none for a constant-true alternative either)
+        cv = None
+        if isinstance(v, VBool):
+            if z3.is_true(v.t): cv = 1
+            elif z3.is_false(v.t): cv = 0
+        elif z3.is_int_value(t):
+            cv = t.as_long()
+        if cv is not None:
+            for c, b in cases:
+                if c == cv:
+                    return b
+            if otherwise is not None:
+                return otherwise
         conds = [t == c for c, _ in cases]
         tgts = [b for _, b in cases]
         if otherwise is not None:
@@ -1173,6 +1252,13 @@ class Engine:
             if mm:
                 ty = mm.group(1)
                 return VInt(rng(ty)[1] if m.group(2) == "MAX" else rng(ty)[0], ty)
+        mb = re.search(r"(\w+)::BYTE_COUNT$", raw)
+        if mb and mb.group(1) in getattr(self.P, "byte_counts", {}):
+            return VInt(self.P.byte_counts[mb.group(1)], "usize")
+        if raw.endswith("SizedTypeProperties>::ALIGN"):
+            return VInt(8, "usize")
+        if raw.endswith("SizedTypeProperties>::SIZE"):
+            return VInt(16, "usize")       # only ever compared with zero (null / ZST checks of the vec! lowering)
         cfn = self.P.resolve_const(raw)
         if cfn is not None:
             return self.run_fn(cfn, [])
@@ -1258,6 +1344,12 @@ class Engine:
                     raise Unsupported("cast to " + ty)
                 return VInt(wrap(a.t, ty), ty)
             if kind.startswith("PointerCoercion") or kind in ("Transmute", "PtrToPtr"):
+                if isinstance(a, VStruct) and a.name in ("NonNull", "Unique") and len(a.fields) == 1:
+                    a = a.fields[0]
+                    if isinstance(a, VStruct) and a.name in ("NonNull", "Unique") and len(a.fields) == 1:
+                        a = a.fields[0]
+                if ty == "usize" and isinstance(a, VRef):
+                    return VInt(0x10000, "usize")      # abstract address of a live allocation: non-null, aligned
                 return a
             raise Unsupported("cast kind " + kind)
         if k == "discriminant":
